@@ -183,6 +183,28 @@ Proof.
   unfold bounded in B. lia.
 Qed.
 
+(* ---- the external pass: which formula cells are skipped ------------------------------------------------- *)
+Theorem external_skipped_spec a sheet row col :
+  external_skipped a sheet row col = true <->
+  sheet = ma_sheet a /\ ma_row a <= row < ma_row a + ma_height a /\ ma_col a <= col < ma_col a + ma_width a.
+Proof.
+  unfold external_skipped. rewrite !andb_true_iff, Z.eqb_eq, !Z.leb_le, !Z.ltb_lt. intuition lia.
+Qed.
+
+(* a formula cell on ANOTHER sheet is never skipped, whatever its coordinates *)
+Theorem external_other_sheet_never_skipped a sheet row col :
+  sheet <> ma_sheet a -> external_skipped a sheet row col = false.
+Proof.
+  intro H. unfold external_skipped. destruct (sheet =? ma_sheet a) eqn:E; [apply Z.eqb_eq in E; contradiction|reflexivity].
+Qed.
+
+(* the skipped cells are exactly the cells of the cut area (the ones [ref_is_in_area] moves) *)
+Theorem external_skipped_is_in_area a sheet row col :
+  external_skipped a sheet row col = ref_is_in_area sheet row col a.
+Proof.
+  apply Bool.eq_true_iff_eq. rewrite external_skipped_spec, ref_is_in_area_spec. intuition lia.
+Qed.
+
 (* ---- copy & paste: the same tree printed at another anchor ------------------------------------------- *)
 (* extend_copied_value: parse at the source cell, [to_localized_string] at the target cell: relative
    references are offsets, so the tree IS the translation; reading the pasted text back at the target
